@@ -247,4 +247,12 @@ pub const HPKE_RFC: u32 = 9180;
             ([], [_, ..]) | ([_, ..], []) => Err(HpkeError::InvalidPskBundle),
             _ => Ok(PskBundle { psk, psk_id }),
         }""")]),
+    dict(name='b-open-explicit-length-guard', props=['C01', 'C05', 'C06', 'C13', 'C14'],
+         edits=[(AEAD, """        let msg_len = ciphertext
+            .len()
+            .checked_sub(tag_len)
+            .ok_or(HpkeError::OpenError)?;""", """        if ciphertext.len() < tag_len {
+            return Err(HpkeError::OpenError);
+        }
+        let msg_len = ciphertext.len() - tag_len;""")]),
 ]
